@@ -337,11 +337,14 @@ Retry(s, resp, op, req) ==
   THEN [kind |-> "fail", ctx |-> kd, rep |-> resp.rep, s |-> s]
   ELSE [kind |-> "fail", ctx |-> kd, rep |-> Err("BAD_SEQID"), s |-> s]
 
-IsUnused(s, k) ==
-  LET F == OofsOf(s, k) IN
-  \/ F = {}
-  \/ (Cardinality(F) = 1 /\ s.oo[k].resp.op # "none" /\ s.oo[k].resp.closed # 0)
-  \/ ~s.oo[k].confirmed
+\* An open-owner is unused (and forgotten when it stays so for the lease time,
+\* after which its next OPEN has to be confirmed again) exactly when it has no
+\* open file: an open-owner with a file that the client has not closed is never
+\* unused, whatever its last request was.  (A file that was closed by the last
+\* request is still recorded, for a retransmission of the CLOSE, but it is not
+\* open.)  An open-owner that was never confirmed has no usable state id.
+OpenFilesOf(s, k) == {t \in OofsOf(s, k) : s.oofs[t].st = "open"}
+IsUnused(s, k) == OpenFilesOf(s, k) = {} \/ ~s.oo[k].confirmed
 
 \* Returns [kind, s, rep]: kind "go" = transaction started.
 StartOO(s, k, seq, policy, op, req) ==
